@@ -600,13 +600,13 @@ pub fn plus_operation<'a>(
     Type2::UintValue { value, .. } => match controller {
       Type2::UintValue {
         value: controller, ..
-      } => values.push((value + controller).into()),
+      } => values.push(value.checked_add(*controller).ok_or_else(|| "integer overflow in .plus operation".to_string())?.into()),
       Type2::IntValue {
         value: controller, ..
-      } => values.push(((*value as isize + controller) as usize).into()),
+      } => values.push(((*value as isize).checked_add(*controller).ok_or_else(|| "integer overflow in .plus operation".to_string())? as usize).into()),
       Type2::FloatValue {
         value: controller, ..
-      } => values.push(((*value as isize + *controller as isize) as usize).into()),
+      } => values.push(((*value as isize).checked_add(*controller as isize).ok_or_else(|| "integer overflow in .plus operation".to_string())? as usize).into()),
       Type2::Typename { ident, .. } => {
         let nv = numeric_values_from_ident(cddl, ident);
         if nv.is_empty() {
@@ -646,13 +646,13 @@ pub fn plus_operation<'a>(
     Type2::IntValue { value, .. } => match controller {
       Type2::IntValue {
         value: controller, ..
-      } => values.push((value + controller).into()),
+      } => values.push(value.checked_add(*controller).ok_or_else(|| "integer overflow in .plus operation".to_string())?.into()),
       Type2::UintValue {
         value: controller, ..
-      } => values.push((value + *controller as isize).into()),
+      } => values.push(value.checked_add(*controller as isize).ok_or_else(|| "integer overflow in .plus operation".to_string())?.into()),
       Type2::FloatValue {
         value: controller, ..
-      } => values.push((value + *controller as isize).into()),
+      } => values.push(value.checked_add(*controller as isize).ok_or_else(|| "integer overflow in .plus operation".to_string())?.into()),
       Type2::Typename { ident, .. } => {
         let nv = numeric_values_from_ident(cddl, ident);
         if nv.is_empty() {
